@@ -855,4 +855,31 @@ def clientAD (resolverValidated : Bool) (hops : List Bool) (fromCache : Bool) (r
   let a2 := dns64AD a1 dns64Rewritten
   ednsWriteAD a2 (ednsNoAD r) truncated
 
+/-! ### round 9: the cache's CD partitions, cuts and failing alias hops -/
+
+/-- `Store.GetWithContext` — the reader behind `Resolver.subQuery`, i.e. the validator's own DS / DNSKEY
+fetches: `stored0` / `stored1` say whether an entry for the question is filed under CD=0 / CD=1; the result
+is the partition the served entry came from. The lookup is keyed on the request's own CD bit only. -/
+def privateLookup (stored0 stored1 askCD : Bool) : Option Bool :=
+  if askCD then (if stored1 then some true else none) else (if stored0 then some false else none)
+
+structure CutReply where
+  hit : Bool
+  ad : Bool
+  dnssec : Bool
+deriving DecidableEq, Repr
+
+/-- a name below a cached, locally validated NXDOMAIN (RFC 8020 cut) on every serving route
+(`serveCutHitFromWire` + `edns.WriteWire`, `LookupNXDomainCut` + `WriteMsg`): CD=1 never reaches the cut; the
+body always asserts AD and the writer clears it for a client that asked for no DNSSEC; the proof records
+travel only toward DO. -/
+def cutServe (r : ReqFlags) : CutReply :=
+  if r.cd then { hit := false, ad := false, dnssec := false }
+  else { hit := true, ad := ednsWriteAD true (ednsNoAD r) false, dnssec := r.doBit }
+
+/-- `Cache.additionalAnswer`, failure branch: the alias is a cache hit, the fetch of its target comes back
+with a failing rcode (anything but NOERROR / NXDOMAIN) and possibly an EDE of its own. -/
+def hitChaseFailReply (hopEDE : Option Nat) (hasOPT : Bool) : Reply :=
+  { rcode := 2, ede := if hasOPT then some (hopEDE.getD 0) else none, ad := false, answers := 0 }
+
 end SdnsVerif.Model.Dnssec
